@@ -163,6 +163,40 @@ def admissible(n, ne, spin):
     return na, nb
 
 
+# ------------------------------------------------------------------------------------------ model evaluation
+# last-known-good copy of the jkmn.py tables (sigma_map = {0:X, 1:Y, 2:Z}, node offset (3**l - 1)//2): used ONLY when
+# the translator no longer recognises the source, so that the correspondence and the oracles still run; the
+# evidence then says "FALLBACK constants" and the translator failure is reported as a violation of its own.
+FALLBACK_TABLES = """(* FALLBACK constants written by harness/props/C05.py — NOT regenerated from /repo *)
+From Coq Require Import NArith List Bool.
+From Tangelo Require Import Pauli.Word Fermion.JKMN.
+Import ListNotations.
+Definition jkmn_tab_gen : jkmn_tab := mkJT [PX; PY; PZ] 3%N 1%N 2%N.
+"""
+
+
+def safe_eval(ck, name, exprs, shard):
+    """the model's strings, or None (reported, no failing input) when the model cannot be evaluated; the
+    implementation-only oracles of the stream still run in that case"""
+    try:
+        return ck.coq_eval(name, PREAMBLE, exprs, shard=shard)
+    except Exception as e:
+        ck.violation("C05/model-evaluation/%s" % name,
+                     "the Coq model could not be evaluated for stream %s (correspondence skipped, oracles still run): %s"
+                     % (name, str(e)[-600:]), {"kind": "model-evaluation", "stream": name, "error": str(e)[-3000:]},
+                     found_input=False)
+        return None
+
+
+def split_batch(out, expected):
+    if out is None:
+        return [None] * expected
+    outs = out.split("|")
+    if len(outs) != expected:
+        raise RuntimeError("model batch returned %d results for %d cases" % (len(outs), expected))
+    return outs
+
+
 # ------------------------------------------------------------------------------------------ streams
 def stream_vectors(ck, nmax):
     import numpy as np
@@ -178,11 +212,9 @@ def stream_vectors(ck, nmax):
             for utd in (False, True):
                 exprs.append("mapped_batch jkmn_tab_gen %s %s %s" % (COQ_MAP[m], coq_bool(utd), coq_nat(n)))
                 index.append((n, m, utd))
-    model = ck.coq_eval("vectors", PREAMBLE, exprs, shard=12)
+    model = safe_eval(ck, "vectors", exprs, 12) or [None] * len(index)
     for (n, m, utd), out in zip(index, model):
-        outs = out.split("|")
-        if len(outs) != 2 ** n:
-            raise RuntimeError("model batch returned %d results for %d vectors" % (len(outs), 2 ** n))
+        outs = split_batch(out, 2 ** n)
         for i in range(2 ** n):
             v = [(i >> k) & 1 for k in range(n)]
             impl = impl_mapped(v, m, utd)
@@ -192,9 +224,9 @@ def stream_vectors(ck, nmax):
                     sample=dict(case, impl=impl, model=outs[i]),
                     tags=[m, "n=%d" % n, "utd" if utd else "alt", impl.split(" ")[0].split(":")[0]])
             found = None
-            if n % 2 == 0 and n >= 2 and impl.startswith("Ok "):
+            if n % 2 == 0 and n >= 2:          # every 0/1 vector of even length is admissible: an exception is a violation too
                 found = oracle_vector(ck, v, m, utd)
-            if impl != outs[i] and not found:
+            if outs[i] is not None and impl != outs[i] and not found:
                 ck.violation("C05/%s/correspondence/get_mapped_vector" % m,
                              "model and implementation differ on vector %s (%s, up_then_down=%s): implementation %s, "
                              "model %s" % (v, m, utd, impl, outs[i]),
@@ -250,12 +282,10 @@ def stream_fillings(ck, nmax):
             for m in MAPPINGS:
                 exprs.append("gv_direct jkmn_tab_gen %s true %s %s" % (coq_mapping_opt(m), coq_Z(n), cq))
                 index.append((n, m, True, cases, "direct"))
-    model = ck.coq_eval("fillings", PREAMBLE, exprs, shard=8)
+    model = safe_eval(ck, "fillings", exprs, 8) or [None] * len(index)
     accepted_inadmissible = 0
     for (n, m, utd, cases, how), out in zip(index, model):
-        outs = out.split("|")
-        if len(outs) != len(cases):
-            raise RuntimeError("model batch returned %d results for %d cases" % (len(outs), len(cases)))
+        outs = split_batch(out, len(cases))
         for (ne, spin), ms in zip(cases, outs):
             impl = impl_get_vector(n, ne, m, utd, spin)
             adm = admissible(n, ne, spin)
@@ -269,7 +299,12 @@ def stream_fillings(ck, nmax):
             found = None
             if adm and how == "batch" and m in MAPPINGS and n >= 2:
                 found = oracle_filling(ck, n, ne, spin, m, utd, adm)
-            if impl != ms and not found:
+            if adm and n >= 2 and m.upper() in COQ_MAP and not impl.startswith("Ok ") and not found:
+                found = "exception on an admissible input: %s" % impl
+                ck.violation("C05/%s/exception/get_vector" % m.upper(),
+                             "get_vector(%d, %d, %r, up_then_down=%s, spin=%s) raised on an admissible input: %s"
+                             % (n, ne, m, utd, spin, impl), case, found_input=True)
+            if ms is not None and impl != ms and not found:
                 ck.violation("C05/%s/correspondence/get_vector" % m.upper(),
                              "model and implementation differ on get_vector(%d, %d, %r, up_then_down=%s, spin=%s): "
                              "implementation %s, model %s" % (n, ne, m, utd, spin, impl, ms),
@@ -322,20 +357,18 @@ def stream_random(ck, count, nlo, nhi):
             part = vs[i:i + 25]
             exprs.append("mapped_list jkmn_tab_gen %s %s %s" % (COQ_MAP[m], coq_bool(utd), coq_list([coq_vec(v) for v in part])))
             index.append((m, utd, part))
-    model = ck.coq_eval("random", PREAMBLE, exprs, shard=6)
+    model = safe_eval(ck, "random", exprs, 6) or [None] * len(index)
     for (m, utd, part), out in zip(index, model):
-        outs = out.split("|")
-        if len(outs) != len(part):
-            raise RuntimeError("model batch returned %d results for %d vectors" % (len(outs), len(part)))
+        outs = split_batch(out, len(part))
         for v, ms in zip(part, outs):
             impl = impl_mapped(v, m, utd)
             case = {"kind": "vector", "vector": v, "mapping": m, "up_then_down": utd}
             ck.case(st, json.dumps(case), nontrivial=0 < sum(v) < len(v), sample=dict(case, impl=impl, model=ms),
                     tags=[m, "n=%d" % len(v), "utd" if utd else "alt"])
             found = None
-            if len(v) % 2 == 0 and impl.startswith("Ok "):
+            if len(v) % 2 == 0 and len(v) >= 2:
                 found = oracle_vector(ck, v, m, utd)
-            if impl != ms and not found:
+            if ms is not None and impl != ms and not found:
                 ck.violation("C05/%s/correspondence/get_mapped_vector" % m,
                              "model and implementation differ on vector %s (%s, up_then_down=%s): implementation %s, "
                              "model %s" % (v, m, utd, impl, ms), dict(case, impl=impl, model=ms), found_input=False)
@@ -385,33 +418,53 @@ def run(ck):
                       "other inputs are compared with the model but are not violations (the source does not validate them)"]
     try:
         ck.write_gen("EncodingTables", encoding_tables.emit(encoding_tables.extract(REPO)))
-    except TranslateError as e:
+        ck.notes["tables_source"] = "regenerated from /repo (translator/encoding_tables.py)"
+    except Exception as e:                 # TranslateError or anything else: report, fall back, KEEP GOING
         ck.violation("C05/translator/encoding_tables", "translator no longer recognises the source: %s" % e,
                      {"kind": "translator", "error": str(e)}, found_input=False)
-        return
-    res = ck.prove()
-    if not res.ok:
-        ck.proof_violation(res)
+        ck.write_gen("EncodingTables", FALLBACK_TABLES)
+        ck.notes["tables_source"] = "FALLBACK constants (last known good jkmn.py tables; translator failed: %s)" % str(e)[:200]
+    try:
+        res = ck.prove()
+        if not res.ok:
+            ck.proof_violation(res)
+    except Exception as e:
+        ck.violation("C05/proof/build", "the proof step could not be run: %s" % str(e)[-600:],
+                     {"kind": "proof", "error": str(e)[-3000:]}, found_input=False)
     try:
         import tangelo.toolboxes.qubit_mappings.statevector_mapping  # noqa
     except Exception as e:
         ck.violation("C05/import", "tangelo statevector_mapping cannot be imported: %r" % e, {"kind": "import"}, found_input=False)
-        return
     quick = ck.tier == "quick"
     ck.stream("oracle", "property evaluated on the implementation alone: expectation of fermion_to_qubit_mapping(a_i^dagger a_i) "
-              "in the basis state prepared by the returned circuit = requested occupation, every orbital i, exact")
-    corpus = VERIF / "corpus" / "C05"
-    if corpus.exists():
-        for f in sorted(corpus.glob("*.json")):
-            r = json.loads(f.read_text()).get("replay", {})
-            ck.case("corpus", f.name, nontrivial=True)
-            if replay({"replay": r}, quiet=True):
-                ck.violation(json.loads(f.read_text()).get("signature", "C05/corpus/%s" % f.name),
-                             "stored case still fails: %s" % f.name, r, found_input=True)
-    stream_vectors(ck, 6 if quick else 10)
-    stream_fillings(ck, 10 if quick else 16)
-    stream_random(ck, 120 if quick else 1500, 7 if quick else 11, 12 if quick else 20)
-    stream_inputs(ck)
+              "in the basis state prepared by the returned circuit = requested occupation, every orbital i, exact; an "
+              "exception raised inside tangelo on an admissible case is a violation carrying that case")
+
+    def guarded(name, fn, *args):
+        try:
+            fn(ck, *args)
+        except Exception:
+            import traceback
+            tb = traceback.format_exc()
+            ck.violation("C05/stream-crash/%s" % name, "stream %s could not complete: %s" % (name, tb.splitlines()[-1]),
+                         {"kind": "crash", "stream": name, "traceback": tb[-3000:]}, found_input=False)
+
+    def corpus_stream(ck):
+        corpus = VERIF / "corpus" / "C05"
+        if corpus.exists():
+            for f in sorted(corpus.glob("*.json")):
+                d = json.loads(f.read_text())
+                r = d.get("replay", {})
+                ck.case("corpus", f.name, nontrivial=True)
+                if replay({"replay": r}, quiet=True):
+                    ck.violation(d.get("signature", "C05/corpus/%s" % f.name),
+                                 "stored case still fails: %s" % f.name, r, found_input=True)
+
+    guarded("corpus", corpus_stream)
+    guarded("vectors-exhaustive", stream_vectors, 6 if quick else 10)
+    guarded("fillings", stream_fillings, 10 if quick else 16)
+    guarded("vectors-random", stream_random, 120 if quick else 1500, 7 if quick else 11, 12 if quick else 20)
+    guarded("input-forms", stream_inputs)
     ck.notes["exhaustive"] = True
     ck.notes["exhaustive_domain"] = ("all 0/1 vectors of length <= %d and all (n_electrons, spin) grids for n <= %d, 4 "
                                      "mappings, 2 orderings" % (6 if quick else 10, 10 if quick else 16))
